@@ -23,7 +23,7 @@ class C1(C0):
         super().__init__( ** kwargs)
 *)
 Definition P_get_then_forward : prog :=
-  {| p_funcs := (@nil fn); p_classes := [{| c_bases := (@nil nat); c_init := (Some {| f_params := [{| sp_name := [97]%N; sp_ty := 0%N; sp_def := DVal 0%N (0)%Z |}; {| sp_name := [98]%N; sp_ty := 0%N; sp_def := DVal 0%N (1)%Z |}]; f_kw := false; f_body := (@nil stmt) |}); c_meths := (@nil (nat * fn)) |}; {| c_bases := [0%nat]; c_init := (Some {| f_params := (@nil sparam); f_kw := true; f_body := [SPG false [110]%N 0%N (3)%Z; SCall KSuper 0%nat (@nil str)] |}); c_meths := (@nil (nat * fn)) |}] |}.
+  {| p_funcs := (@nil fn); p_classes := [{| c_bases := (@nil nat); c_init := (Some {| f_params := [{| sp_name := [97]%N; sp_ty := 0%N; sp_def := DVal 0%N (0)%Z; sp_kwonly := false |}; {| sp_name := [98]%N; sp_ty := 0%N; sp_def := DVal 0%N (1)%Z; sp_kwonly := false |}]; f_kw := false; f_body := (@nil stmt) |}); c_meths := (@nil (nat * fn)) |}; {| c_bases := [0%nat]; c_init := (Some {| f_params := (@nil sparam); f_kw := true; f_body := [SPG false [110]%N 0%N (3)%Z; SCall KSuper 0%nat (@nil str)] |}); c_meths := (@nil (nat * fn)) |}] |}.
 
 (*
 class C0:
@@ -37,7 +37,7 @@ class C1(C0):
         super().__init__( ** kwargs)
 *)
 Definition P_pop_then_forward : prog :=
-  {| p_funcs := (@nil fn); p_classes := [{| c_bases := (@nil nat); c_init := (Some {| f_params := [{| sp_name := [97]%N; sp_ty := 0%N; sp_def := DVal 0%N (0)%Z |}; {| sp_name := [98]%N; sp_ty := 0%N; sp_def := DVal 0%N (1)%Z |}]; f_kw := false; f_body := (@nil stmt) |}); c_meths := (@nil (nat * fn)) |}; {| c_bases := [0%nat]; c_init := (Some {| f_params := (@nil sparam); f_kw := true; f_body := [SPG true [110]%N 0%N (3)%Z; SCall KSuper 0%nat (@nil str)] |}); c_meths := (@nil (nat * fn)) |}] |}.
+  {| p_funcs := (@nil fn); p_classes := [{| c_bases := (@nil nat); c_init := (Some {| f_params := [{| sp_name := [97]%N; sp_ty := 0%N; sp_def := DVal 0%N (0)%Z; sp_kwonly := false |}; {| sp_name := [98]%N; sp_ty := 0%N; sp_def := DVal 0%N (1)%Z; sp_kwonly := false |}]; f_kw := false; f_body := (@nil stmt) |}); c_meths := (@nil (nat * fn)) |}; {| c_bases := [0%nat]; c_init := (Some {| f_params := (@nil sparam); f_kw := true; f_body := [SPG true [110]%N 0%N (3)%Z; SCall KSuper 0%nat (@nil str)] |}); c_meths := (@nil (nat * fn)) |}] |}.
 
 (*
 class C0:
@@ -54,7 +54,7 @@ class C2(C1):
     pass
 *)
 Definition P_inherited_init : prog :=
-  {| p_funcs := (@nil fn); p_classes := [{| c_bases := (@nil nat); c_init := (Some {| f_params := [{| sp_name := [97]%N; sp_ty := 0%N; sp_def := DVal 0%N (0)%Z |}; {| sp_name := [98]%N; sp_ty := 0%N; sp_def := DVal 0%N (1)%Z |}]; f_kw := false; f_body := (@nil stmt) |}); c_meths := (@nil (nat * fn)) |}; {| c_bases := [0%nat]; c_init := (Some {| f_params := (@nil sparam); f_kw := true; f_body := [SCall KSuper 1%nat (@nil str)] |}); c_meths := (@nil (nat * fn)) |}; {| c_bases := [1%nat]; c_init := None; c_meths := (@nil (nat * fn)) |}] |}.
+  {| p_funcs := (@nil fn); p_classes := [{| c_bases := (@nil nat); c_init := (Some {| f_params := [{| sp_name := [97]%N; sp_ty := 0%N; sp_def := DVal 0%N (0)%Z; sp_kwonly := false |}; {| sp_name := [98]%N; sp_ty := 0%N; sp_def := DVal 0%N (1)%Z; sp_kwonly := false |}]; f_kw := false; f_body := (@nil stmt) |}); c_meths := (@nil (nat * fn)) |}; {| c_bases := [0%nat]; c_init := (Some {| f_params := (@nil sparam); f_kw := true; f_body := [SCall KSuper 1%nat (@nil str)] |}); c_meths := (@nil (nat * fn)) |}; {| c_bases := [1%nat]; c_init := None; c_meths := (@nil (nat * fn)) |}] |}.
 
 (*
 class C0:
@@ -68,7 +68,7 @@ class C1(C0):
         super().__init__(a=0, ** kwargs)
 *)
 Definition P_popget_hardcoded : prog :=
-  {| p_funcs := (@nil fn); p_classes := [{| c_bases := (@nil nat); c_init := (Some {| f_params := [{| sp_name := [97]%N; sp_ty := 0%N; sp_def := DVal 0%N (0)%Z |}; {| sp_name := [98]%N; sp_ty := 0%N; sp_def := DVal 0%N (1)%Z |}]; f_kw := false; f_body := (@nil stmt) |}); c_meths := (@nil (nat * fn)) |}; {| c_bases := [0%nat]; c_init := (Some {| f_params := (@nil sparam); f_kw := true; f_body := [SPG true [97]%N 0%N (3)%Z; SCall KSuper 0%nat [[97]%N]] |}); c_meths := (@nil (nat * fn)) |}] |}.
+  {| p_funcs := (@nil fn); p_classes := [{| c_bases := (@nil nat); c_init := (Some {| f_params := [{| sp_name := [97]%N; sp_ty := 0%N; sp_def := DVal 0%N (0)%Z; sp_kwonly := false |}; {| sp_name := [98]%N; sp_ty := 0%N; sp_def := DVal 0%N (1)%Z; sp_kwonly := false |}]; f_kw := false; f_body := (@nil stmt) |}); c_meths := (@nil (nat * fn)) |}; {| c_bases := [0%nat]; c_init := (Some {| f_params := (@nil sparam); f_kw := true; f_body := [SPG true [97]%N 0%N (3)%Z; SCall KSuper 0%nat [[97]%N]] |}); c_meths := (@nil (nat * fn)) |}] |}.
 
 (*
 class C0:
@@ -81,7 +81,7 @@ class C1(C0):
         super().__init__(a=0, ** kwargs)
 *)
 Definition P_hardcoded : prog :=
-  {| p_funcs := (@nil fn); p_classes := [{| c_bases := (@nil nat); c_init := (Some {| f_params := [{| sp_name := [97]%N; sp_ty := 0%N; sp_def := DVal 0%N (0)%Z |}; {| sp_name := [98]%N; sp_ty := 0%N; sp_def := DVal 0%N (1)%Z |}]; f_kw := false; f_body := (@nil stmt) |}); c_meths := (@nil (nat * fn)) |}; {| c_bases := [0%nat]; c_init := (Some {| f_params := [{| sp_name := [99]%N; sp_ty := 2%N; sp_def := DVal 2%N (1)%Z |}]; f_kw := true; f_body := [SCall KSuper 0%nat [[97]%N]] |}); c_meths := (@nil (nat * fn)) |}] |}.
+  {| p_funcs := (@nil fn); p_classes := [{| c_bases := (@nil nat); c_init := (Some {| f_params := [{| sp_name := [97]%N; sp_ty := 0%N; sp_def := DVal 0%N (0)%Z; sp_kwonly := false |}; {| sp_name := [98]%N; sp_ty := 0%N; sp_def := DVal 0%N (1)%Z; sp_kwonly := false |}]; f_kw := false; f_body := (@nil stmt) |}); c_meths := (@nil (nat * fn)) |}; {| c_bases := [0%nat]; c_init := (Some {| f_params := [{| sp_name := [99]%N; sp_ty := 2%N; sp_def := DVal 2%N (1)%Z; sp_kwonly := false |}]; f_kw := true; f_body := [SCall KSuper 0%nat [[97]%N]] |}); c_meths := (@nil (nat * fn)) |}] |}.
 
 (*
 class C0:
@@ -100,7 +100,7 @@ class C1(C0):
         pass
 *)
 Definition P_method_override : prog :=
-  {| p_funcs := (@nil fn); p_classes := [{| c_bases := (@nil nat); c_init := (Some {| f_params := (@nil sparam); f_kw := true; f_body := [SCall (KMeth 0%nat) 0%nat (@nil str)] |}); c_meths := [(0%nat, {| f_params := [{| sp_name := [112]%N; sp_ty := 0%N; sp_def := DVal 0%N (2)%Z |}]; f_kw := false; f_body := (@nil stmt) |})] |}; {| c_bases := [0%nat]; c_init := (Some {| f_params := (@nil sparam); f_kw := true; f_body := [SCall KSuper 0%nat (@nil str)] |}); c_meths := [(0%nat, {| f_params := [{| sp_name := [113]%N; sp_ty := 0%N; sp_def := DVal 0%N (3)%Z |}]; f_kw := false; f_body := (@nil stmt) |})] |}] |}.
+  {| p_funcs := (@nil fn); p_classes := [{| c_bases := (@nil nat); c_init := (Some {| f_params := (@nil sparam); f_kw := true; f_body := [SCall (KMeth 0%nat) 0%nat (@nil str)] |}); c_meths := [(0%nat, {| f_params := [{| sp_name := [112]%N; sp_ty := 0%N; sp_def := DVal 0%N (2)%Z; sp_kwonly := false |}]; f_kw := false; f_body := (@nil stmt) |})] |}; {| c_bases := [0%nat]; c_init := (Some {| f_params := (@nil sparam); f_kw := true; f_body := [SCall KSuper 0%nat (@nil str)] |}); c_meths := [(0%nat, {| f_params := [{| sp_name := [113]%N; sp_ty := 0%N; sp_def := DVal 0%N (3)%Z; sp_kwonly := false |}]; f_kw := false; f_body := (@nil stmt) |})] |}] |}.
 
 (*
 class C0:
@@ -120,7 +120,7 @@ class C2:
         C1( ** kwargs)
 *)
 Definition P_cond_crash : prog :=
-  {| p_funcs := (@nil fn); p_classes := [{| c_bases := (@nil nat); c_init := (Some {| f_params := [{| sp_name := [122]%N; sp_ty := 0%N; sp_def := DVal 0%N (1)%Z |}]; f_kw := false; f_body := (@nil stmt) |}); c_meths := (@nil (nat * fn)) |}; {| c_bases := [0%nat]; c_init := (Some {| f_params := (@nil sparam); f_kw := true; f_body := [SPG true [122]%N 0%N (3)%Z; SCall KSuper 0%nat (@nil str)] |}); c_meths := (@nil (nat * fn)) |}; {| c_bases := (@nil nat); c_init := (Some {| f_params := (@nil sparam); f_kw := true; f_body := [SPG true [113]%N 0%N (0)%Z; SCall (KClass 1%nat) 0%nat (@nil str)] |}); c_meths := (@nil (nat * fn)) |}] |}.
+  {| p_funcs := (@nil fn); p_classes := [{| c_bases := (@nil nat); c_init := (Some {| f_params := [{| sp_name := [122]%N; sp_ty := 0%N; sp_def := DVal 0%N (1)%Z; sp_kwonly := false |}]; f_kw := false; f_body := (@nil stmt) |}); c_meths := (@nil (nat * fn)) |}; {| c_bases := [0%nat]; c_init := (Some {| f_params := (@nil sparam); f_kw := true; f_body := [SPG true [122]%N 0%N (3)%Z; SCall KSuper 0%nat (@nil str)] |}); c_meths := (@nil (nat * fn)) |}; {| c_bases := (@nil nat); c_init := (Some {| f_params := (@nil sparam); f_kw := true; f_body := [SPG true [113]%N 0%N (0)%Z; SCall (KClass 1%nat) 0%nat (@nil str)] |}); c_meths := (@nil (nat * fn)) |}] |}.
 
 (*
 class C0:
@@ -156,7 +156,7 @@ class C3(C1, C2):
         super().__init__( ** kwargs)
 *)
 Definition P_diamond : prog :=
-  {| p_funcs := (@nil fn); p_classes := [{| c_bases := (@nil nat); c_init := (Some {| f_params := [{| sp_name := [97]%N; sp_ty := 0%N; sp_def := DVal 0%N (0)%Z |}]; f_kw := true; f_body := [SCall KSuper 0%nat (@nil str)] |}); c_meths := (@nil (nat * fn)) |}; {| c_bases := [0%nat]; c_init := (Some {| f_params := [{| sp_name := [98]%N; sp_ty := 1%N; sp_def := DVal 1%N (1)%Z |}]; f_kw := true; f_body := [SPG true [110]%N 0%N (3)%Z; SCall KSuper 0%nat (@nil str)] |}); c_meths := (@nil (nat * fn)) |}; {| c_bases := [0%nat]; c_init := (Some {| f_params := [{| sp_name := [114;48]%N; sp_ty := 2%N; sp_def := DReq |}; {| sp_name := [99]%N; sp_ty := 2%N; sp_def := DVal 2%N (2)%Z |}]; f_kw := true; f_body := [SCall KSuper 0%nat [[97]%N]] |}); c_meths := (@nil (nat * fn)) |}; {| c_bases := [1%nat; 2%nat]; c_init := (Some {| f_params := [{| sp_name := [100]%N; sp_ty := 0%N; sp_def := DVal 0%N (3)%Z |}]; f_kw := true; f_body := [SCall KSuper 0%nat (@nil str)] |}); c_meths := (@nil (nat * fn)) |}] |}.
+  {| p_funcs := (@nil fn); p_classes := [{| c_bases := (@nil nat); c_init := (Some {| f_params := [{| sp_name := [97]%N; sp_ty := 0%N; sp_def := DVal 0%N (0)%Z; sp_kwonly := false |}]; f_kw := true; f_body := [SCall KSuper 0%nat (@nil str)] |}); c_meths := (@nil (nat * fn)) |}; {| c_bases := [0%nat]; c_init := (Some {| f_params := [{| sp_name := [98]%N; sp_ty := 1%N; sp_def := DVal 1%N (1)%Z; sp_kwonly := false |}]; f_kw := true; f_body := [SPG true [110]%N 0%N (3)%Z; SCall KSuper 0%nat (@nil str)] |}); c_meths := (@nil (nat * fn)) |}; {| c_bases := [0%nat]; c_init := (Some {| f_params := [{| sp_name := [114;48]%N; sp_ty := 2%N; sp_def := DReq; sp_kwonly := false |}; {| sp_name := [99]%N; sp_ty := 2%N; sp_def := DVal 2%N (2)%Z; sp_kwonly := false |}]; f_kw := true; f_body := [SCall KSuper 0%nat [[97]%N]] |}); c_meths := (@nil (nat * fn)) |}; {| c_bases := [1%nat; 2%nat]; c_init := (Some {| f_params := [{| sp_name := [100]%N; sp_ty := 0%N; sp_def := DVal 0%N (3)%Z; sp_kwonly := false |}]; f_kw := true; f_body := [SCall KSuper 0%nat (@nil str)] |}); c_meths := (@nil (nat * fn)) |}] |}.
 
 (* ---- resolver_sound ----------------------------------------------------------------------------
    Full statement (FALSE of the unchanged code, see the _refuted lemmas):
@@ -180,7 +180,7 @@ Theorem C13_resolver_sound_frame :
   forall (fuel : nat) (P : prog) (fr : frame) (R : list rparam) (npos : nat) (kws : list str),
     klass fuel P fr = 0%N ->
     resolve_frame fuel P fr = Ok R ->
-    npos <= length (f_params (fr_fn fr)) ->
+    npos <= npos_cap (fr_fn fr) ->
     NoDup kws ->
     (forall n, In n kws -> In n (names (skipn npos R))) ->
     good_outcome (fst (call_frame fuel P fr npos kws)) = true.
